@@ -7,6 +7,7 @@ mod encfam;
 mod gcfam;
 mod gen;
 mod lexfam;
+mod parsefam;
 mod pool;
 mod proj;
 mod relfam;
@@ -74,6 +75,9 @@ fn main() {
         "gen-templates" => tmplfam::gen_templates(&args),
         "replay-gc" => gcfam::replay_gc(&args),
         "gen-enum" => seqfam::gen_enum(&args),
+        "replay-parse" => parsefam::replay_parse(&args),
+        "gen-parse" => parsefam::gen_parse(&args),
+        "gen-lex" => lexfam::gen_lex(&args),
         "gen-roundtrip" => seqfam::gen_roundtrip(&args),
         "gen-heap" => gcfam::gen_heap(&args),
         "show" => semfam::show(&args),
